@@ -56,12 +56,27 @@ func VerifHarness_C18_reconnect() {
 	receiveChannel := make(chan *Message, 10)
 	interrupt := make(chan interface{})
 
-	// ---- connection 1
+	// the other goroutines may be scheduled at the interleaving point of runConnection's tear-down
+	vkInterleave = func(point string) {
+		if verifrt.Choose("preempt at "+point, 2) == 1 {
+			verifrt.Yield()
+			verifrt.Reach("C18.reconnect.preempted-in-tear-down")
+		}
+	}
+	defer func() { vkInterleave = nil }()
+
+	// ---- connection 1 (it may start with a message carried over from an earlier connection)
+	var carried0 *c18Pending
+	var first *sendMessageRequest
+	if verifrt.Choose("conn1.carried-message", 2) == 1 {
+		p := c18MkPending(0)
+		carried0, first = &p, p.req
+	}
 	conn1 := newVkPipe()
 	c.conn.Store(net.Conn(conn1))
 	run1 := &c18ConnRun{}
 	go func() {
-		run1.ret, run1.err = c.runConnection(ctx, net.Conn(conn1), sendChannel, receiveChannel, nil, interrupt)
+		run1.ret, run1.err = c.runConnection(ctx, net.Conn(conn1), sendChannel, receiveChannel, first, interrupt)
 		run1.done = true
 	}()
 	verifrt.Quiesce()
@@ -79,6 +94,11 @@ func VerifHarness_C18_reconnect() {
 			want1 = append(want1, c18Enc(&Ready{NextMessageID: 1})...)
 		}
 		verifrt.Quiesce()
+		if carried0 != nil {
+			want1 = append(want1, carried0.enc...)
+			verifrt.Sig("connection 1", "carried-acked")
+			verifrt.Assert(len(carried0.ack) == 1, "C18.reconnect.sent-after-handshake-is-acked")
+		}
 		if verifrt.Choose("conn1.request", 2) == 1 {
 			p := c18MkPending(1)
 			sendChannel <- p.req
@@ -112,6 +132,15 @@ func VerifHarness_C18_reconnect() {
 	verifrt.Assert(run1.done && run1.err == nil, "C18.reconnect.drop-ends-connection-for-reconnect")
 	if !run1.done {
 		return
+	}
+	if !handshake1 {
+		verifrt.Sig("connection 1", "written-without-handshake")
+		verifrt.Assert(len(conn1.all()) == 0, "C18.reconnect.nothing-written-to-a-connection-whose-handshake-never-completed")
+		if carried0 != nil {
+			verifrt.Sig("connection 1", "carried-on")
+			verifrt.Assert(run1.ret == carried0.req && len(carried0.ack) == 0, "C18.reconnect.unsent-message-is-carried-not-acked")
+			all = append(all, *carried0)
+		}
 	}
 	if dropKind == 1 {
 		verifrt.Sig("connection 1", "carried")
